@@ -3,6 +3,7 @@ package main
 import (
 	"fmt"
 	"sort"
+	"strings"
 )
 
 // genInfo describes how lazily-materialised heap variables are obtained for a state generation.
@@ -47,6 +48,11 @@ func (s *State) Get(name, sort string) Term {
 		t = s.vc.entryVar(name, sort)
 	case "havoc":
 		g := s.gen
+		if g.prev != nil && (strings.HasPrefix(name, "ghost_") || strings.HasPrefix(name, "seen_")) {
+			// ghost state is only changed by contracts, never by unknown code
+			t = g.prev.Get(name, sort)
+			break
+		}
 		cn := fmt.Sprintf("%s!h%d", name, g.id)
 		s.vc.declOnce(cn, sort)
 		t = Term{cn, sort}
